@@ -350,14 +350,28 @@ func Payload(t *rapid.T, k string, small bool) model.Payload {
 		p.KE = &model.KE{Group: u16b(t, "ke.group", 2, 14, 0, 65535), Data: BytesLen(t, "ke.data", 1, 600, 1, 128, 256)}
 	case model.KIDi, model.KIDr:
 		p.ID = &model.ID{Type: u8(t, "id.type"), Data: BytesLen(t, "id.data", 1, 300, 1, 4, 16)}
+		if rapid.IntRange(0, 4).Draw(t, "id.text") == 4 {
+			// identities that are text (mixed case, trailing dot, NUL) under the ID types that carry text - and under any other
+			p.ID.Data = model.Bytes(rapid.SampledFrom([]string{"Host.Example.ORG", "User@Example.ORG", "gw.example.org.", "UPPER", "a\x00b", "xn--Bcher-kva.example"}).Draw(t, "id.textdata"))
+			if rapid.Bool().Draw(t, "id.texttype") {
+				p.ID.Type = rapid.SampledFrom([]uint8{2, 3, 11}).Draw(t, "id.texttype2")
+			}
+		}
 	case model.KCERT, model.KCERTREQ:
 		p.Cert = &model.Cert{Encoding: u8(t, "cert.enc"), Data: BytesLen(t, "cert.data", 1, 1500, 1, 20)}
+		if rapid.IntRange(0, 5).Draw(t, "cert.pem") == 5 {
+			// the octets a PEM-armoured certificate consists of (with the encoding that usually goes with it, or any)
+			p.Cert.Data = model.Bytes("-----BEGIN CERTIFICATE-----\nMIIBszCCAVmgAwIBAgIUQ0FGRUJBQkU=\n-----END CERTIFICATE-----\n")
+			if rapid.Bool().Draw(t, "cert.x509") {
+				p.Cert.Encoding = 4
+			}
+		}
 	case model.KAUTH:
 		p.Auth = &model.Auth{Method: u8(t, "auth.method"), Data: BytesLen(t, "auth.data", 1, 600, 1, 12, 20, 32, 256)}
 	case model.KNonce:
 		p.Data = BytesLen(t, "nonce", 0, 300, 0, 16, 32, 256)
 	case model.KVendor:
-		p.Data = BytesLen(t, "vendor", 0, 300, 0, 16)
+		p.Data = VendorID(t)
 	case model.KNotify:
 		p.Notify = Notify(t)
 	case model.KDelete:
@@ -468,9 +482,92 @@ func TS(t *rapid.T, small bool) *model.TS {
 		n = Len(t, "ts.count", 1, 255, 1, 2, 255)
 	}
 	for i := 0; i < n; i++ {
-		ts.Selectors = append(ts.Selectors, Selector(t))
+		sel := Selector(t)
+		// a selector RELATED to the one before it: the same, or the adjacent address range (start = previous end + 1) with the
+		// same type, protocol and ports - which a decoder or builder might be tempted to merge
+		if i > 0 && rapid.IntRange(0, 5).Draw(t, "sel.related") == 5 {
+			prev := ts.Selectors[i-1]
+			sel = prev
+			if rapid.Bool().Draw(t, "sel.adjacent") {
+				sel.StartAddr = addrSucc(prev.EndAddr)
+				sel.EndAddr = addrSucc(addrSucc(sel.StartAddr))
+			}
+		}
+		ts.Selectors = append(ts.Selectors, sel)
 	}
 	return ts
+}
+
+// addrSucc returns the address after a (wrapping around at the all-ones address).
+func addrSucc(a model.Bytes) model.Bytes {
+	out := append(model.Bytes(nil), a...)
+	for i := len(out) - 1; i >= 0; i-- {
+		out[i]++
+		if out[i] != 0 {
+			break
+		}
+	}
+	return out
+}
+
+// wellKnownVendorIDs: vendor ids that implementations look for (with and without their trailing version octets)
+var wellKnownVendorIDs = []string{
+	"afcad71368a1f1c96b8696fc77570100", "afcad71368a1f1c96b8696fc7757", // DPD (RFC 3706)
+	"4048b7d56ebce88525e7de7f00d6c2d3", "4048b7d56ebce88525e7de7f00d6c2d380000000", // FRAGMENTATION
+	"4a131c81070358455c5728f20e95452f",                                     // NAT-T RFC 3947
+	"7d9419a65310ca6f2c179d9215529d56", "90cb80913ebb696e086381b5ec427b1f", // NAT-T drafts
+	"882fe56d6fd20dbc2251613b2ebe5beb",                                 // strongSwan
+	"12f5f28c457168a9702d9fe274cc0100", "12f5f28c457168a9702d9fe274cc", // Cisco Unity
+	"09002689dfd6b712",                         // XAUTH
+	"1e2b516905991c7d7c96fcbfb587e46100000009", // MS NT5 ISAKMPOAKLEY
+	"4f45755c645c6a795c5c6170",                 // Openswan
+	"43697363 6f2d44656c6574652d526561736f6e",  // Cisco delete reason (text)
+}
+
+// KnownVendorIDs returns the well-known vendor ids as octet strings.
+func KnownVendorIDs() []model.Bytes {
+	var out []model.Bytes
+	for _, h := range wellKnownVendorIDs {
+		out = append(out, unhex(h))
+	}
+	return out
+}
+
+func unhex(hexs string) model.Bytes {
+	var out model.Bytes
+	var v byte
+	n := 0
+	for i := 0; i < len(hexs); i++ {
+		c := hexs[i]
+		var d byte
+		switch {
+		case c >= '0' && c <= '9':
+			d = c - '0'
+		case c >= 'a' && c <= 'f':
+			d = c - 'a' + 10
+		default:
+			continue
+		}
+		v = v<<4 | d
+		n++
+		if n%2 == 0 {
+			out = append(out, v)
+			v = 0
+		}
+	}
+	return out
+}
+
+// VendorID draws vendor id data: arbitrary octets, or one of the ids implementations look for (possibly with a tail).
+func VendorID(t *rapid.T) model.Bytes {
+	if rapid.IntRange(0, 5).Draw(t, "vendor.known") != 5 {
+		return BytesLen(t, "vendor", 0, 300, 0, 16)
+	}
+	out := unhex(rapid.SampledFrom(wellKnownVendorIDs).Draw(t, "vendor.id"))
+	if rapid.IntRange(0, 3).Draw(t, "vendor.tail") == 3 {
+		out = append(out, rapid.SliceOfN(rapid.Byte(), 1, 4).Draw(t, "vendor.tailoctets")...)
+	}
+	return out
 }
 
 func Selector(t *rapid.T) model.Selector {
@@ -599,6 +696,9 @@ func EAP(t *rapid.T, domain bool) model.EAP {
 			e.VendorType = rapid.Uint32().Draw(t, "eap.vtype")
 		}
 		e.Data = BytesLen(t, "eap.vdata", 0, 1100, 0, 1, 2, 4, 243, 244, 245, 498, 499, 500, 501, 1011, 1012)
+		if e.VendorID == 10415 && e.VendorType == 3 && rapid.IntRange(0, 2).Draw(t, "eap.5gstructured") == 2 {
+			e.Data = EAP5GData(t)
+		}
 	default:
 		e.Kind = model.EAka
 		e.Sub = u8(t, "aka.sub")
@@ -608,6 +708,38 @@ func EAP(t *rapid.T, domain bool) model.EAP {
 		e.Attrs = AkaAttrs(t)
 	}
 	return e
+}
+
+// EAP5GData draws vendor data laid out like a TS 24.502 EAP-5G message: message id, spare, [AN-parameter length and
+// parameters,] NAS-PDU length and NAS-PDU - with lengths that are consistent or off by a little, and possibly octets behind
+// the NAS-PDU ("extensions").
+func EAP5GData(t *rapid.T) model.Bytes {
+	id := rapid.SampledFrom([]uint8{1, 2, 2, 2, 3, 4, 0}).Draw(t, "5g.msgid")
+	out := model.Bytes{id, 0}
+	put16 := func(n int) { out = append(out, byte(n>>8), byte(n)) }
+	fudge := func(label string, n int) int {
+		switch rapid.IntRange(0, 7).Draw(t, label) {
+		case 6:
+			return n + 1
+		case 7:
+			if n > 0 {
+				return n - 1
+			}
+		}
+		return n
+	}
+	if rapid.Bool().Draw(t, "5g.anparams") {
+		an := rapid.SliceOfN(rapid.Byte(), 0, 24).Draw(t, "5g.an")
+		put16(fudge("5g.anlen", len(an)))
+		out = append(out, an...)
+	}
+	nas := append(model.Bytes{rapid.SampledFrom([]byte{0x7e, 0x2e, 0x00}).Draw(t, "5g.epd")}, rapid.SliceOfN(rapid.Byte(), 0, 40).Draw(t, "5g.nas")...)
+	put16(fudge("5g.naslen", len(nas)))
+	out = append(out, nas...)
+	if rapid.Bool().Draw(t, "5g.extensions") {
+		out = append(out, rapid.SliceOfN(rapid.Byte(), 1, 12).Draw(t, "5g.ext")...)
+	}
+	return out
 }
 
 var akaTypes = []uint8{model.AT_RAND, model.AT_AUTN, model.AT_RES, model.AT_MAC, model.AT_KDF_INPUT, model.AT_KDF, model.AT_CHECKCODE}
